@@ -504,6 +504,7 @@ pub fn finish(ctx: &Ctx, st: &Stats, fin: Finish, replay: ReplayFn) -> i32 {
     }
 
     let mut code = 0;
+    let mut context_pending: Vec<(String, String, PathBuf)> = vec![];
     let rdir = ctx.verif_dir.join("replays").join(&ctx.id);
     for (n, v) in unknown.iter().enumerate() {
         let _ = std::fs::create_dir_all(&rdir);
@@ -540,13 +541,40 @@ pub fn finish(ctx: &Ctx, st: &Stats, fin: Finish, replay: ReplayFn) -> i32 {
                 code = 1;
             }
             _ => {
-                println!(
-                    "MACHINERY-FAILURE: violation key={} ({}) did not replay deterministically: {:?} / {:?} (replay file {})",
-                    v.key, v.msg, r1, r2, path.display()
-                );
-                if code == 0 {
-                    code = 2;
-                }
+                // The case passes when it is executed on its own. Either the machinery is at fault, or the library
+                // carries state from one call to the next (a memo, a cache, a thread-local hint) and the case only
+                // fails after the calls that preceded it in the run. Decide by re-running the whole check twice in
+                // fresh processes: if both runs report violations again, the failure is the library's and it is
+                // reported with the re-run as its replay.
+                context_pending.push((v.key.clone(), v.msg.clone(), path.clone()));
+            }
+        }
+    }
+    if !context_pending.is_empty() {
+        let rerun = |n: u32| -> usize {
+            let exe = match std::env::current_exe() { Ok(e) => e, Err(_) => return 0 };
+            let out = child_command(exe).arg(&ctx.id).arg("--tier").arg(ctx.tier_str()).arg("--verif-dir").arg(&ctx.verif_dir).arg("--no-evidence").arg("--no-replay").output();
+            match out {
+                Ok(o) => String::from_utf8_lossy(&o.stdout).lines().filter(|l| l.starts_with("VIOLATION property=")).count(),
+                Err(_) => { let _ = n; 0 }
+            }
+        };
+        let (a, b) = (rerun(1), rerun(2));
+        if a > 0 && b > 0 {
+            let (key, msg, _) = &context_pending[0];
+            let path = rdir.join("context_rerun.json");
+            let doc = json!({"property": ctx.id, "key": format!("history-dependent:{}", key), "msg": msg, "case": {"kind": "context-rerun", "tier": ctx.tier_str(), "first_key": key}});
+            let _ = std::fs::create_dir_all(&rdir);
+            std::fs::write(&path, serde_json::to_string_pretty(&doc).unwrap() + "\n").unwrap();
+            println!("VIOLATION property={} replay={}", ctx.id, path.display());
+            println!("  key=history-dependent:{} :: {} [this case passes when executed on its own and fails after the calls that precede it in the run: the library's answer depends on earlier calls; {} such cases; two fresh re-runs of the whole check reported {} and {} violations]", key, msg, context_pending.len(), a, b);
+            code = 1;
+        } else {
+            for (key, msg, path) in &context_pending {
+                println!("MACHINERY-FAILURE: violation key={} ({}) did not replay deterministically and fresh re-runs of the check reported {} / {} violations (replay file {})", key, msg, a, b, path.display());
+            }
+            if code == 0 {
+                code = 2;
             }
         }
     }
@@ -813,6 +841,18 @@ pub fn replay_generic(id: &str, case: &Value) -> Option<Result<(), String>> {
                         Some(Err(format!("child died again in library code at {}", library_location(&all))))
                     }
                 }
+            }
+        }
+        Some("context-rerun") => {
+            let exe = std::env::current_exe().ok()?;
+            let verif = std::env::var("RQ_VERIF_DIR").unwrap_or_else(|_| "/verif".into());
+            let out = child_command(exe).arg(id).arg("--tier").arg(case["tier"].as_str().unwrap_or("quick")).arg("--verif-dir").arg(verif).arg("--no-evidence").arg("--no-replay").output().ok()?;
+            let so = String::from_utf8_lossy(&out.stdout).to_string();
+            let n = so.lines().filter(|l| l.starts_with("VIOLATION property=")).count();
+            if n > 0 {
+                Some(Err("the check reports violations again when re-run in a fresh process (history-dependent library state)".to_string()))
+            } else {
+                Some(Ok(()))
             }
         }
         Some("library-panic") => {
